@@ -17,9 +17,31 @@ def nontrivial(impl):
 SOURCES = [scopesuite.scope_tree, scopesuite.valid_scenario]
 
 
+def plain_children(rng):
+    """a scope some of whose children are plain awaitables (`scope.do(time + d)`, `scope.do(flag)`) and that is left abruptly (the
+    body raises, an `until` fires) or normally: they are tasks like any other and are closed / waited for with the rest"""
+    from fractions import Fraction as F
+    kids = []
+    for i in range(rng.randint(1, 3)):
+        if rng.random() < 0.6:
+            kids.append(['spawnplain', 0, i, rng.random() < 0.3, rng.choice([['delay', rng.choice([2, 5, 20])], ['flag', 0], ['after', 30]])])
+        else:
+            kids.append(['spawn', 0, i, None, None, rng.random() < 0.3, ['prog', ['sleep', rng.choice([1, 3, 20])], ['log', 300 + i]]])
+    how = rng.random()
+    body = kids + [['sleep', rng.choice([0, F(1, 2), 1, 2])]]
+    if how < 0.5:
+        body.append(['raise', 2])
+    notif = ['none'] if how < 0.75 else ['delay', rng.choice([F(1, 2), 1, 3])]
+    scope = ['try', ['body', ['scope', 0, notif] + body], ['handler', ['pats', 'concurrent', 'anyException'], ['body', ['log', 90]]]]
+    main = ['prog', scope, ['log', 50], ['sleep', 40], ['log', 60]]
+    setter = ['prog', ['sleep', rng.choice([1, 4, 25])], ['set', 0, True]]
+    return ['scenario', ['debug', 1], ['start', 0], ['flags', 1], ['locks', 0], ['roots', main, setter]]
+
+
 def run(tier, seed, drv):
     return msuite.standard_run(PID, 'C04', TAGS, tier, seed, drv, SOURCES, nontrivial=nontrivial, rule=RULE,
-                               n_quick=200, n_thorough=6000, optimized=100 if tier == 'quick' else 1000)
+                               n_quick=200, n_thorough=6000, optimized=100 if tier == 'quick' else 1000,
+                               judge_only=[plain_children], n_judge_only=40 if tier == 'quick' else 1500)
 
 
 def replay(data, drv):
